@@ -143,3 +143,10 @@ brk("c06-htj2k-decoder-factory-removed", ["C06"],
     "FLOWS-HTFACTORY", "")
 benign("c05-benign-explicit-true", ["C05", "C06"],
     [("jpeg2000/lossless/codec.go", "	encParams.EnableMCT = losslessParams.AllowMCT\n", "	encParams.EnableMCT = losslessParams.AllowMCT\n	encParams.Lossless = true\n")])
+brk("c08-j2k-drop-codeblock-exponent-check", ["C08"],
+    [("jpeg2000/codestream/parser.go", "	if cbw > 8 || cbh > 8 || int(cbw)+int(cbh) > 8 {\n		return 0, 0, 0, 0, 0, nil, fmt.Errorf(\"invalid code-block size exponents: %d, %d\", cbw, cbh)\n	}\n", "")],
+    "MAKE", "t2")
+benign("c16-benign-rename-sink-owner", ["C16"],
+    [("jpeg/standard/huffman_encoder.go", "func (e *HuffmanEncoder) writeByte(b byte) error {", "func (e *HuffmanEncoder) emitStuffed(b byte) error {"),
+     ("jpeg/standard/huffman_encoder.go", "e.writeByte(", "e.emitStuffed("),
+     ("jpeg/standard/huffman_encoder.go", "e.writeByte(", "e.emitStuffed(")])
